@@ -544,3 +544,38 @@ def law_all_names(ctx):
     nm3, res3 = t["name-other"]
     ok_other = res3 is nm3 or (isinstance(res3, ast.Name) and res3.id == "foo")
     ctx.ob(f"{m.key}:every-self-reference", loc, "calls through recurse and through the function's own name, and bare references to either, are all redirected to the per-function global; other names are untouched", ok_call and ok_name and ok_rec and ok_other, "only some of the names under which a method refers to its function are rewritten: the leftover one raises UsageError or re-enters the function the method was first registered in")
+
+
+def law_own_definition_is_entered(ctx):
+    """C08 / C09: the method being rewritten is a definition named like its function (the own name is one of the names
+    to rewrite): whatever the rewriter does with nested definitions that shadow a name, the method's own definition is
+    entered - its body is visited."""
+    m, loc = rw_loc(ctx)
+    rw = A.rewriter(ctx.repo)
+    special = [k for k in ("visit_FunctionDef", "visit_AsyncFunctionDef", "visit_Lambda", "visit_ClassDef", "visit") if k in rw.methods]
+    if not special:
+        ctx.ob(f"{rw.key}:own-definition-entered", loc, "definitions get no special treatment by the rewriter (the default visit enters them)", True)
+        return
+    for k in special:
+        if k not in ("visit_FunctionDef", "visit_AsyncFunctionDef"):
+            continue
+        ctx.touch(rw.methods[k])
+        rwc, hi, self_obj = _setup(ctx, False, {})
+        body = ast.parse("def SELFNAME(x, y=1):\n    return SELFNAME(x - 1)\n").body[0]
+        if k == "visit_AsyncFunctionDef":
+            body = ast.parse("async def SELFNAME(x, y=1):\n    return SELFNAME(x - 1)\n").body[0]
+        try:
+            res = hi.call_method(k, body)
+        except Raised as r:
+            res = ("raised", r.what)
+        entered = _is_marker(res, "generic_visit", body) or _is_marker(res, "visited", body)
+        if not entered and isinstance(res, (ast.FunctionDef, ast.AsyncFunctionDef)):
+            # the body statements were visited one by one
+            entered = all(any(_is_marker(x, "visited") or _is_marker(x, "generic_visit") for x in ast.walk(st)) or _is_marker(st, "visited") for st in res.body) and res.body is not body.body or any(_is_marker(x, "visited") or _is_marker(x, "generic_visit") for st in res.body for x in ast.walk(st))
+        ctx.ob(
+            f"{rw.methods[k].key}:own-definition-entered",
+            rw.methods[k].loc(),
+            f"`{k}` enters the definition of the method itself (a definition named like the function, whose name is one of the names being rewritten)",
+            bool(entered),
+            "the method's own definition is taken for a definition that shadows the name and is returned unvisited: nothing in the method is rewritten - its self-reference stays bound to whatever the global name means later (a variant defined under the same name), and a method that also uses recurse fails with UsageError",
+        )
